@@ -7,6 +7,7 @@ package main
 
 import (
 	"fmt"
+	"os"
 	"go/types"
 	"sort"
 	"strings"
@@ -141,9 +142,13 @@ func sweepBrokerWrites(g *G, idx funcIndex, cs *contractSet, prop string) ([]*Ob
 	if len(keys) == 0 {
 		return nil, nil, fmt.Errorf("sweep: no function of package gateway loaded")
 	}
+	// A call of mqttSend is decided by the contract of the function it is in
+	// only if that contract speaks about this property (a function that came
+	// under contract for another property - run, for C13 - says nothing
+	// about what it may send to the broker).
 	underContract := func(fn *ssa.Function) bool {
 		for f := fn; f != nil; f = f.Parent() {
-			if c := g.contracts[funcKey(f)]; c != nil && !c.Trusted {
+			if c := g.contracts[funcKey(f)]; c != nil && !c.Trusted && hasTag(c.AllTags(), prop) {
 				return true
 			}
 			if g.inlineSet[funcKey(f)] {
@@ -207,7 +212,7 @@ func sweepBrokerWrites(g *G, idx funcIndex, cs *contractSet, prop string) ([]*Ob
 				if f := c.StaticCallee(); f != nil && funcKey(f) == "gateway.(*handler1).mqttSend" {
 					sawSend = true
 					ok := underContract(fn)
-					note := "mqttSend called from a function without contract with a packet that is not statically a non-DISCONNECT paho packet"
+					note := "mqttSend called from a function whose contract has no clause of this property, with a packet that is not statically a non-DISCONNECT paho packet"
 					if !ok && len(c.Args) == 2 {
 						if mi, isMI := c.Args[1].(*ssa.MakeInterface); isMI {
 							if n, isP := namedIn(mi.X.Type(), pahoPkts); isP && n != "DisconnectPacket" {
@@ -520,4 +525,116 @@ func sweepDatagramSenders(g *G, idx funcIndex, cs *contractSet, prop string) ([]
 		}
 	}
 	return obls, []string{"A-SWEEP: datagrams reach a connection only through snSend (gateway) and Client.send (client library); checked for the gateway's broker side by C14/C24, for connection writes of package client by inspection of its single Write call in send"}, nil
+}
+
+// entryAssumptions lists, for the functions verified in a run, those whose
+// precondition is checked nowhere: no function under contract calls them,
+// starts them as a goroutine, arms them as a timer callback or hands them to
+// another function. Such a function is an entry point of the verified code
+// (called by the application, the runtime or tests) and its `requires`
+// clauses are assumptions; they go into the evidence by name.
+func entryAssumptions(g *G, idx funcIndex, keys []string) []string {
+	verified := map[*ssa.Function]bool{}
+	var fns []*ssa.Function
+	for _, fn := range idx {
+		if fn.Blocks == nil || strings.HasSuffix(g.fset.Position(fn.Pos()).Filename, "_test.go") {
+			continue
+		}
+		fns = append(fns, fn)
+		for f := fn; f != nil; f = f.Parent() {
+			k := funcKey(f)
+			if c := g.contracts[k]; (c != nil && !c.Trusted) || g.inlineSet[k] {
+				verified[fn] = true
+			}
+		}
+	}
+	target := func(f *ssa.Function) *ssa.Function {
+		if f.Synthetic != "" {
+			if obj, ok := f.Object().(*types.Func); ok {
+				if m := g.prog.FuncValue(obj); m != nil {
+					return m
+				}
+			}
+		}
+		return f
+	}
+	// functions referenced from verified code; small loop-free helpers
+	// without contract are verified inside their callers (auto-inlined), so
+	// what they reference counts as well (fixpoint)
+	covered := map[*ssa.Function]bool{}
+	scanned := map[*ssa.Function]bool{}
+	for changed := true; changed; {
+		changed = false
+		for _, fn := range fns {
+			if !verified[fn] || scanned[fn] {
+				continue
+			}
+			scanned[fn] = true
+			changed = true
+			// in set-up code verified with `opaquecalls` only callees under
+			// contract have their preconditions checked
+			opaque := false
+			for f := fn; f != nil; f = f.Parent() {
+				if c := g.contracts[funcKey(f)]; c != nil && c.OpaqueCalls {
+					opaque = true
+				}
+			}
+			mark := func(f *ssa.Function) {
+				f = target(f)
+				if opaque && g.contracts[funcKey(f)] == nil {
+					return
+				}
+				if os.Getenv("GOVC_DEBUG_ENTRY") != "" && strings.Contains(funcKey(f), os.Getenv("GOVC_DEBUG_ENTRY")) {
+					fmt.Fprintln(os.Stderr, "entry-debug:", funcKey(f), "referenced from", funcKey(fn))
+				}
+				covered[f] = true
+				if !verified[f] && g.contracts[funcKey(f)] == nil && isRepoFn(f) && f.Blocks != nil && loopFreeSmall(f) {
+					verified[f] = true
+				}
+			}
+			for _, b := range fn.Blocks {
+				for _, in := range b.Instrs {
+					var ops []*ssa.Value
+					for _, op := range in.Operands(ops) {
+						if op == nil || *op == nil {
+							continue
+						}
+						switch v := (*op).(type) {
+						case *ssa.Function:
+							mark(v)
+						case *ssa.MakeClosure:
+							if f, ok := v.Fn.(*ssa.Function); ok {
+								mark(f)
+							}
+						}
+					}
+					if ci, ok := in.(ssa.CallInstruction); ok && ci.Common().IsInvoke() {
+						// interface call: every implementation in the program
+						m := ci.Common().Method
+						for _, t := range g.allTypes {
+							if sel := g.prog.MethodSets.MethodSet(t).Lookup(m.Pkg(), m.Name()); sel != nil {
+								if f := g.prog.MethodValue(sel); f != nil {
+									mark(f)
+								}
+							}
+						}
+					}
+				}
+			}
+		}
+	}
+	var out []string
+	for _, k := range keys {
+		c := g.contracts[k]
+		if c == nil || c.Fn == nil || len(c.Requires) == 0 || covered[c.Fn] {
+			continue
+		}
+		var labels []string
+		for _, r := range c.Requires {
+			labels = append(labels, r.Label)
+		}
+		out = append(out, fmt.Sprintf("A-ENTRY: %s has no caller under contract (an entry point: called by the application, the Go runtime or tests only): its precondition (%s) is assumed, not checked", k, strings.Join(labels, ", ")))
+	}
+	sort.Strings(out)
+	return out
 }
